@@ -13,6 +13,7 @@
 #include <string.h>
 #include <stdlib.h>
 #include <inttypes.h>
+#include <stddef.h>
 
 /* ---------- helpers ---------- */
 static int hv(int c) { return c <= '9' ? c - '0' : (c >= 'a' ? c - 'a' + 10 : c - 'A' + 10); }
@@ -371,6 +372,29 @@ int main(void)
 		while (n > 0 && (line[n - 1] == '\n' || line[n - 1] == '\r')) line[--n] = 0;
 		t = split(line, &k);
 		if (k == 0) { puts("BADCASE"); continue; }
+		if (!strcmp(t[0], "K")) {
+			/* constants of the working tree the model relies on */
+			printf("TAR_MAX_SYMLINK_LEN=%d TAR_MAX_PATH_LEN=%d TAR_MAX_PAX_LEN=%d TAR_MAX_SPARSE_ENT=%d "
+			       "TAR_RECORD_SIZE=%d STREAM_BUFSZ=%zu S_IFMT=%d S_IFSOCK=%d S_IFLNK=%d S_IFREG=%d S_IFBLK=%d "
+			       "S_IFDIR=%d S_IFCHR=%d S_IFIFO=%d T_FILE=%d T_LINK=%d T_SLINK=%d T_CHR=%d T_BLK=%d T_DIR=%d "
+			       "T_FIFO=%d T_GNU_SLINK=%d T_GNU_PATH=%d T_GNU_SPARSE=%d T_PAX=%d T_PAX_GLOBAL=%d "
+			       "SPARSE_IN_HDR=%zu SPARSE_IN_EXT=%zu OFF_GNU_SPARSE=%zu OFF_GNU_ISEXT=%zu OFF_GNU_REALSIZE=%zu "
+			       "OFF_EXT_ISEXT=%zu SIZEOF_PREFIX=%zu\n",
+			       TAR_MAX_SYMLINK_LEN, TAR_MAX_PATH_LEN, TAR_MAX_PAX_LEN, TAR_MAX_SPARSE_ENT, TAR_RECORD_SIZE,
+			       sizeof(((tar_istream_t *)0)->buffer), S_IFMT, S_IFSOCK, S_IFLNK, S_IFREG, S_IFBLK, S_IFDIR,
+			       S_IFCHR, S_IFIFO, TAR_TYPE_FILE, TAR_TYPE_LINK, TAR_TYPE_SLINK, TAR_TYPE_CHARDEV,
+			       TAR_TYPE_BLOCKDEV, TAR_TYPE_DIR, TAR_TYPE_FIFO, TAR_TYPE_GNU_SLINK, TAR_TYPE_GNU_PATH,
+			       TAR_TYPE_GNU_SPARSE, TAR_TYPE_PAX, TAR_TYPE_PAX_GLOBAL,
+			       sizeof(((tar_header_t *)0)->tail.gnu.sparse) / sizeof(gnu_old_sparse_t),
+			       sizeof(((gnu_old_sparse_record_t *)0)->sparse) / sizeof(gnu_old_sparse_t),
+			       offsetof(tar_header_t, tail.gnu.sparse) - offsetof(tar_header_t, tail),
+			       offsetof(tar_header_t, tail.gnu.isextended) - offsetof(tar_header_t, tail),
+			       offsetof(tar_header_t, tail.gnu.realsize) - offsetof(tar_header_t, tail),
+			       offsetof(gnu_old_sparse_record_t, isextended),
+			       sizeof(((tar_header_t *)0)->tail.posix.prefix));
+			fflush(stdout);
+			continue;
+		}
 		if (!strcmp(t[0], "N") && k == 2) case_read_number(t[1], 0);
 		else if (!strcmp(t[0], "M") && k == 2) case_read_number(t[1], 1);
 		else if (!strcmp(t[0], "W") && k == 3) {
